@@ -152,8 +152,7 @@ def oracle_sink(t):
     return exp, final
 
 
-def oracle_source(t, notes):
-    """notes: list collecting ('known', index) for the recorded finding"""
+def oracle_source(t):
     dev, p, stored = t[0], int(t[1]), bytearray(parse_bytes(t[2]))
     ops = t[3:]
     buf = dev in "bv"
@@ -193,9 +192,10 @@ def oracle_source(t, notes):
                 if wc:
                     exp.append(["0", "0"] + st() + [dump(sent) if wd else "-"])
                 else:
-                    # documented: an exact request that cannot be met is an error (known finding: returns 0)
+                    # documented: "Returns an error if bytes_out is NULL and less than bytes_avail are read" -
+                    # an exact request that cannot be met is an error (F-C11b, repaired by 103c295)
                     exp.append(["!0", "-"] + st() + [dump(sent) if wd else "-"])
-                    notes.append(("exact-after-eof", i))
+                    dead = True
                 continue
             if buf:
                 k = min(n, left())
@@ -252,8 +252,9 @@ def oracle_source(t, notes):
             if n == 0:
                 exp.append(["0"] + st())
             elif eof:
+                # sc_io_source_align is an exact skip of the padding: an error once the end is registered
                 exp.append(["!0"] + st())
-                notes.append(("exact-after-eof", i))
+                dead = True
             elif buf:
                 k = min(n, left())
                 if left() == 0:
@@ -394,7 +395,7 @@ def compare(exp_tokens, got_tokens):
 
 
 def judge(line, out):
-    """oracle verdict on one implementation output line: list of (kind, text); kind 'known' or 'bad'"""
+    """oracle verdict on one implementation output line: list of (kind, text); kind is 'bad'"""
     t = line.split()
     res = []
     if out is None:
@@ -415,15 +416,10 @@ def judge(line, out):
         elif final is not None and gfinal != final:
             res.append(("bad", "final content: expected %s, got %s" % (final, gfinal)))
     elif t[0] == "R":
-        notes = []
-        exp = oracle_source(t[1:], notes)
+        exp = oracle_source(t[1:])
         got = [w for w in out.split() if not w.startswith("LEAK")]
-        known_idx = set(i for (k, i) in notes)
         for (i, j, x, y) in compare(exp, got):
-            if i in known_idx and j == 0 and x == "!0" and y == "0":
-                res.append(("known", "op %d (%s): exact request after the end was registered returned 0" % (i, t[4 + i])))
-            else:
-                res.append(("bad", "op %d (%s) field %d: expected %s, got %s" % (i, t[4 + i], j, x, y)))
+            res.append(("bad", "op %d (%s) field %d: expected %s, got %s" % (i, t[4 + i], j, x, y)))
     elif t[0] == "L":
         exp = oracle_saveload(t[1:])
         got = [w for w in out.split() if not w.startswith("LEAK")]
@@ -678,9 +674,14 @@ FIXED = [
     "K n w 0 aabb 0 w:0102 w:030405:1 d",
     "K f A 0 aabb 0 w:0102 c d",
     "K f W 0 aabb 0 w:0102 c d",
-    # the recorded finding: exact request after the end has been registered
+    # F-C11b (repaired by 103c295): an exact request after the end has been registered is an error
     "R b 1 0708 r:4 r:4 x:1 d",
     "R n 0 0102030405 r:8 t:2 a:4 d",
+    "R b 1 0708 r:4 r:4 t:1 d",
+    "R b 2 01020304 r:3 r:4 r:1 a:4 a:8 d",
+    "R f 2 0102030405 r:2 r:4 a:4 d",
+    "R n 0 010203 m r:5 x:2 M:3 d",
+    "R b 1 0708 r:4 r:4 x:0 t:0 s:3 r:2 a:1 d",
     "R f 1 0102030405 m r:2 a:4 r:3 M:8 X:2 X:3 N:9 d",
     "R b 4 0102030405060708 r:3 c r:1 c x:4 c x:1 d",
     "R b 2 01020304 s:1 t:1 a:4 r:9 d",
@@ -722,7 +723,7 @@ def run_impl(ctx, exe, lines):
 
 
 def shrink(ctx, exe, line):
-    """drop operations while the oracle still objects (not for known findings)"""
+    """drop operations while the oracle still objects"""
     cur = line
     for _ in range(30):
         t = cur.split()
@@ -780,7 +781,7 @@ def run(ctx):
     except vlib.BuildError as e:
         ctx.tie_broken("c11 model build", str(e)[-1500:])
     dist = {}
-    nbad = ndis = nknown = 0
+    nbad = ndis = 0
     for i, line in enumerate(cases):
         t = line.split()
         kind = t[0] + ":" + (t[1] if t[0] != "L" else "-")
@@ -789,10 +790,6 @@ def run(ctx):
         io = impl[i] if i < len(impl) else None
         verdict = judge(line, io)
         bad = [x for k, x in verdict if k == "bad"]
-        known = [x for k, x in verdict if k == "known"]
-        if known:
-            nknown += 1
-            ctx.violation("source-exact-request-after-eof", "%s: %s" % (line[:160], known[0]), dict(case=line, impl=io))
         if bad:
             nbad += 1
             if nbad <= 3:
@@ -817,7 +814,6 @@ def run(ctx):
                        "around multiples of the 16384 window with faults; a case is non-trivial if it has at least two operations; distinct = distinct case lines")
     ctx.cov["exhaustive"] = False
     ctx.notes["case_distribution"] = dist
-    ctx.notes["known_finding_cases"] = nknown
     ctx.notes["oracle_violations"] = nbad
     ctx.notes["model_disagreements"] = ndis
     ctx.notes["memory_end"] = end
